@@ -108,6 +108,8 @@ func main() {
 		cmdReplay(os.Args[2:])
 	case "seq":
 		cmdSeq(os.Args[2:])
+	case "crashchild":
+		cmdCrashChild(os.Args[2:])
 	default:
 		fail("unknown command %s", os.Args[1])
 	}
